@@ -222,6 +222,9 @@ func (cr *checkRun) run(noSelftest bool) int {
 		if fc.Trusted != "" {
 			continue
 		}
+		if _, gone := cr.p.unbound[k]; gone {
+			continue
+		}
 		wg.Add(1)
 		sem <- struct{}{}
 		go func(i int, k string) {
@@ -246,6 +249,11 @@ func (cr *checkRun) run(noSelftest bool) int {
 		fc := cr.p.contracts.Funcs[k]
 		if fc.Trusted != "" {
 			cr.assumptions = append(cr.assumptions, fmt.Sprintf("trusted contract (body not verified): %s — %s", k, fc.Trusted))
+			continue
+		}
+		if why, gone := cr.p.unbound[k]; gone {
+			cr.outside = append(cr.outside, fmt.Sprintf("%s: %s", k, why))
+			cr.failObligation(k+"/reach", "the function this contract is written for cannot be found: "+why, nil, nil, nil, Result{Status: "error", Output: why})
 			continue
 		}
 		fr := results[i]
